@@ -30,7 +30,7 @@ func (check) Cases(tier string) int {
 }
 
 func (check) Rule() string {
-	return "histories of 5-40 operations (SetBool/Int/Uint/Float/String; SetChild of a fresh config, of a child handle - also the receiver itself or a config holding it -, of the history's own root into itself or one of its descendants, of a nil *Config; Remove; Merge of a container - mostly an empty list or dictionary - onto a nil (padding of a write beyond the end, explicit null) or a primitive found or made below the target, under the default, append, prepend and list-replace policies, kind probes compared with the same merge into an empty configuration; Merge of data or of a config of the history itself - the target, a part of it, a config holding it, or a disjoint one - under the default, append, prepend, list-replace and replace policies; Child) over 16 overlapping addresses in both spellings (name+idx and dotted), one write in three at exactly the end of the addressed list, with and without PathSep, one history in five with a lowered MaxIdx(2|3) on every call and one in sixty starting from a list of more than 1024 elements (appending and overwriting above the maximum index), applied to the root and to child handles obtained mid-history (handles of containers, of nil settings, and handles kept across Merges that merge into the container they view); after EVERY step the whole tree is compared with the tree-store model (frame condition), every handle must still show its place, and 6 random addresses plus 2 addresses of existing settings are probed through String/Int/Uint/Float/Bool/Has/Child/CountField(address, with the separator: top-level names, dotted paths, index names)/IsDict/IsArray; writes are read back through the equivalent spelling. Non-trivial = history with at least 3 successful mutations touching overlapping addresses; distinct = distinct operation sequence."
+	return "histories of 5-40 operations (SetBool/Int/Uint/Float/String; SetChild of a fresh config, of a child handle - also the receiver itself or a config holding it -, of the history's own root into itself or one of its descendants, of a nil *Config; Remove; Merge of a container - mostly an empty list or dictionary - onto a nil (padding of a write beyond the end, explicit null) or a primitive found or made below the target, under the default, append, prepend and list-replace policies, kind probes compared with the same merge into an empty configuration; Merge of data or of a config of the history itself - the target, a part of it, a config holding it, or a disjoint one - under the default, append, prepend, list-replace and replace policies, one data merge in three with 0-2 per-field options Field{Merge,Append,Prepend}Values (FieldReplaceValues only under ReplaceValues) on dotted paths of names and list positions of containers that exist below the receiver, anywhere in the option list; a shaped Merge with 1-3 such options into a container below the target - mostly an element of a list - whose operand spells the way down, with child handles of that container and of containers below it taken right before the merge, followed by a write at that container through a handle older than the merge or through the parent; Child) over 16 overlapping addresses in both spellings (name+idx and dotted), one write in three at exactly the end of the addressed list, with and without PathSep, one history in five with a lowered MaxIdx(2|3) on every call and one in sixty starting from a list of more than 1024 elements (appending and overwriting above the maximum index), applied to the root and to child handles obtained mid-history (handles of containers, of nil settings, and handles kept across Merges that merge into the container they view); after EVERY step the whole tree is compared with the tree-store model (frame condition), every handle must still show its place, and 6 random addresses plus 2 addresses of existing settings are probed through String/Int/Uint/Float/Bool/Has/Child/CountField(address, with the separator: top-level names, dotted paths, index names)/IsDict/IsArray; writes are read back through the equivalent spelling. Non-trivial = history with at least 3 successful mutations touching overlapping addresses; distinct = distinct operation sequence."
 }
 
 func (check) Assumptions() []string {
@@ -40,6 +40,7 @@ func (check) Assumptions() []string {
 		"a config returned by Child for a nil setting is a child config like any other: the first write through it must be visible through the parent (the nil becomes that container); of several handles taken from the same nil only the first one written through is followed",
 		"CountField(address) is asked like a getter (same options): it must find what the getters find at the address; the number for an empty container is not pinned down (0 or 1), except for a list (without named settings) that lost its last element through Remove in this history: 0",
 		"Merge policies on a plain tree: the settings that stay in the tree stay the objects they were (elements of a list appended or prepended to only move, child handles of them stay live); a replaced list or dictionary consists of new settings (handles of the old ones are given up)",
+		"Merge with per-field options (fieldopt.go): which values result is C16's subject; the plain tree follows C16's statement - the policy of a setting is that of the longest option path that is a prefix of its path, the global one otherwise - restricted to what the in-place model expresses without a reading of its own: concrete paths (no wildcards) of stored names without '.', '*' or numerals, FieldMerge/Append/PrependValues under the default, append, prepend and list-replace policies, FieldReplaceValues only under ReplaceValues (where it changes nothing), no options on merges of a config of the history itself. Judged here is identity: a container merged into stays the object it was whatever options are configured at, above or below it",
 		"a config handed to SetChild or Merge that is the receiver, a part of it or a config holding it is stored / merged as the finite snapshot of what it holds when the call is made; the stored child is asked by identity (Child returns the stored object) because reads of a config that holds itself do not return",
 		"SetChild(nil) may be refused (nothing changes) or store a nil setting; above the maximum index a write beyond the end of the list (a jump) may be refused or pad - C07/C20 decide that, the history follows the library -, a write at the end or below it must succeed",
 		"outside, not generated: Merge operands with dotted or index keys (how the padding nils of the normalised operand meet existing settings is C01's nil rule); numbers above MaxIdx or with EnableNumKeys spelled as a segment of a name (C20: such a segment is a name, so it is no spelling of the idx argument); settings with the empty name (the API documents name \"\" as 'idx addresses the list'); references (VarExp) below written addresses",
@@ -94,6 +95,12 @@ type hist struct {
 	// containers a Merge merged into in place (number of the last such step) / nil nodes that came from nil merged onto nil
 	mergedInto map[*model.Node]int
 	nilOnNil   map[*model.Node]bool
+	// options of the Merge being modelled / containers merged into in place by a
+	// Merge that carried per-field options (number of the last such step) / the
+	// write forced in the step after such a merge (fieldopt.go)
+	fopts        []fopt
+	mergedIntoFO map[*model.Node]int
+	next         *follow
 	// containers that were a nil setting until the first write through a child handle of that nil
 	wasNil map[*model.Node]bool
 	// lists that lost their last element through Remove
@@ -178,7 +185,7 @@ func smallTree(r *rand.Rand) *model.Node {
 func (check) Run(seed int64, tier string, idx int, verbose bool) harness.Result {
 	res := harness.NewR(idx)
 	r := rand.New(rand.NewSource(harness.Mix(seed, "C12", idx)))
-	h := &hist{res: res, r: r, verbose: verbose, mergedInto: map[*model.Node]int{}, nilOnNil: map[*model.Node]bool{}, wasNil: map[*model.Node]bool{}, emptied: map[*model.Node]bool{}, shifted: map[*model.Node]int{}, maxIdx: 1024}
+	h := &hist{res: res, r: r, verbose: verbose, mergedInto: map[*model.Node]int{}, mergedIntoFO: map[*model.Node]int{}, nilOnNil: map[*model.Node]bool{}, wasNil: map[*model.Node]bool{}, emptied: map[*model.Node]bool{}, shifted: map[*model.Node]int{}, maxIdx: 1024}
 	switch r.Intn(8) {
 	case 0, 1:
 	case 2:
@@ -243,10 +250,31 @@ func (h *hist) step() {
 	}
 	name, idx := h.addr()
 	h.stepClass = ""
-	if h.big && r.Intn(2) == 0 {
+	// after a Merge with per-field options: a write at the container it merged
+	// into, through a handle older than the merge or through the parent
+	forced := false
+	if f := h.next; f != nil {
+		h.next = nil
+		switch {
+		case !f.fromParent && !f.x.detached && f.x.n.IsSub() && model.Reachable(h.root.n, f.x.n):
+			t, forced = f.x, true
+			h.res.Ev("writes_forced_after_field_option_merge:through-handle-older-than-the-merge", 1)
+		case f.fromParent && f.n.IsSub() && model.Reachable(h.root.n, f.n):
+			if p, ok := pathTo(h.root.n, f.n); ok {
+				if c := h.libAt(p); c != nil {
+					t, forced = &handle{c: c, n: f.n, desc: "Child(" + model.PathString(p) + ") asked afresh", born: h.stepNo}, true
+					h.res.Ev("writes_forced_after_field_option_merge:through-the-parent", 1)
+				}
+			}
+		}
+		if forced {
+			name, idx = []string{"a", "b", "c", "A"}[r.Intn(4)], -1
+		}
+	}
+	if h.big && r.Intn(2) == 0 && !forced {
 		name, idx = h.bigName, -1 // the long list
 	}
-	if r.Intn(4) == 0 || ((h.big || h.maxIdx != 1024) && r.Intn(3) == 0) {
+	if !forced && (r.Intn(4) == 0 || ((h.big || h.maxIdx != 1024) && r.Intn(3) == 0)) {
 		// exactly at the end of the list addressed by name (the plain append)
 		if l, ok := h.lenAt(t.n, name); ok {
 			idx = l
@@ -257,6 +285,10 @@ func (h *hist) step() {
 	var mutated, firstViaNil bool
 	var mustHave [][]model.Fld
 	op := r.Intn(16)
+	shaped := op == 10 && r.Intn(3) > 0
+	if forced {
+		op, shaped = 0, false
+	}
 	var crossName, crossWName string // address of an empty container that got settings of the other kind in this step, and of the setting
 	var crossWIdx int
 	var crossed bool
@@ -267,6 +299,9 @@ func (h *hist) step() {
 		var what string
 		var ownRoot, nilArg, skipSet bool
 		kind := r.Intn(10)
+		if forced {
+			kind = r.Intn(5)
+		}
 		if kind == 8 && r.Intn(3) > 0 {
 			kind = 7 // (a config that holds itself ends the history on a tree that links it)
 		}
@@ -457,6 +492,12 @@ func (h *hist) step() {
 				}
 			}
 		}
+	case shaped: // a Merge with per-field options into a container below t (fieldopt.go)
+		var m bool
+		if m, mustHave = h.fieldOptMerge(t); !m {
+			return
+		}
+		mutated = true
 	case op < 11: // merge
 		pol, polOpt, polName := model.PDefault, []ucfg.Option(nil), ""
 		switch r.Intn(8) {
@@ -472,6 +513,7 @@ func (h *hist) step() {
 		h.res.SetAdd("merge_policy", pol.String())
 		var sub *model.Node
 		var err error
+		var fo []fopt
 		lv := h.live()
 		if src := lv[r.Intn(len(lv))]; r.Intn(3) == 0 && src.n.IsSub() && !src.detached && (src != t || r.Intn(4) == 0) {
 			// the operand is a config of the history itself: the root or a child
@@ -496,8 +538,18 @@ func (h *hist) step() {
 			err = t.c.Merge(src.c, polOpt...)
 		} else {
 			sub = smallTree(r)
+			opts := polOpt
+			if r.Intn(3) == 0 && t.n.IsSub() {
+				// 0-2 per-field options on paths of containers of the tree
+				fo = h.drawFieldOpts(pathsOf(containersBelow(t.n)), pol, r.Intn(3), nil)
+				var note string
+				opts, note = h.optionList(fo, pol, polOpt)
+				if len(fo) > 0 {
+					polName = note
+				}
+			}
 			h.log = append(h.log, fmt.Sprintf("%s.Merge(%s%s)", t.desc, sub, polName))
-			err = t.c.Merge(sub.ToGo(), polOpt...)
+			err = t.c.Merge(sub.ToGo(), opts...)
 		}
 		h.res.Eval(1)
 		if err != nil {
@@ -509,7 +561,9 @@ func (h *hist) step() {
 			h.written(t)
 			firstViaNil = true
 		}
-		h.merge(t.n, sub, pol)
+		h.fopts = fo
+		h.mergeAt(t.n, sub, pol, nil)
+		h.fopts = nil
 		h.muts++
 		mutated = true
 		for _, k := range sub.SortedKeys() {
